@@ -67,9 +67,11 @@ func init() {
 
 	register(&Property{
 		ID: "C02", Title: "Every message is applicable: no dangling references or stray events",
-		Explanation: "Decides: the typestate table of Subscription.state (who may move a subscription into which state); populate → hand the frame over → release on every path (PAIR/rpc-resources); the shapes the collector relies on: ReleaseRPCResources marks sent, descends into every reference and then opens the loading gate; populateResources* count an edge once, skip sent resources and mark ToSend before descending; removeCount's counter effects follow its direct/sent/tryDelete arguments; every disposed subscription leaves the connection's table (DOM/ref-shapes); references are released with the parent's sent-ness as it was while the edge was counted (PROV/sent-flag: known finding F6); the sent-count is raised once per created edge (PAIR/edge-sent-once: known finding F8); a re-sendable resource has a current snapshot and a closed gate (PAIR/snapshot-current: known finding F13); no change on a collection, no add/remove on a model, decoded indexes inside [0,len] (DOM/index-kind-guard); no event before the hand-over (DOM/event-gate); recursion census. NOT decided — and this is the core of the property: correctness of the two-pass reference-count collector tryDelete/Unsend and of the indirectsent arithmetic on arbitrary reference graphs. Added after seeding round 7: the encoding cached for the latest protocol is read by MarshalJSON only, so a legacy connection is never handed bytes in the wrong dialect (WHO/encoding-cache). Added after seeding round 8: collection snapshots held by still-loading subscriptions are never written in place (DOM/copy-on-write). Added after seeding round 9: marshalers put text into a frame only through json.Marshal, so every frame is well-formed (PROV/json-text). Added after seeding round 10: CONTRA/stale-test (see C01) for the collector's sent-count bookkeeping. Added after seeding round 11: the unsubscribe event releases every direct subscription (DOM/revoke), so no later event targets a resource the client dropped. Added after seeding round 12: the already-handed-over quick exit of populateResources* is taken for exactly the states to-send and sent, by constant propagation over the seven states (TABLE/populate-skip); a release with the collect flag set reaches the collector on every path (DOM/gc-after-release). Added after the mutation sweep: the continuation of an add/change event that waited for referenced resources sends only under state != disposed, tested after the wait (DOM/ready-continuation-live); a map member created on demand is written only where it exists (DOM/map-made). Added after seeding round 13: the count-down in Unsend depends on the child being sent and counted only (DOM/unsend-countdown). DOM/queue-flag-whole: see C06. Added after the mutation sweep: the legacy twin of populateResources agrees with it on every abstract path — decisions and effects — apart from the encoding (TWIN/agree); the suite runs the legacy twin only a few times. Added after the mutation sweep: the sent-ness decisions of the collector (DOM/gc-unsend).",
+		Explanation: "Decides: the typestate table of Subscription.state (who may move a subscription into which state); populate → hand the frame over → release on every path (PAIR/rpc-resources); the shapes the collector relies on: ReleaseRPCResources marks sent, descends into every reference and then opens the loading gate; populateResources* count an edge once, skip sent resources and mark ToSend before descending; removeCount's counter effects follow its direct/sent/tryDelete arguments; every disposed subscription leaves the connection's table (DOM/ref-shapes); references are released with the parent's sent-ness as it was while the edge was counted (PROV/sent-flag: known finding F6); the sent-count is raised once per created edge (PAIR/edge-sent-once: known finding F8); a re-sendable resource has a current snapshot and a closed gate (PAIR/snapshot-current: known finding F13); no change on a collection, no add/remove on a model, decoded indexes inside [0,len] (DOM/index-kind-guard); no event before the hand-over (DOM/event-gate); recursion census. NOT decided — and this is the core of the property: correctness of the two-pass reference-count collector tryDelete/Unsend and of the indirectsent arithmetic on arbitrary reference graphs. Added after seeding round 7: the encoding cached for the latest protocol is read by MarshalJSON only, so a legacy connection is never handed bytes in the wrong dialect (WHO/encoding-cache). Added after seeding round 8: collection snapshots held by still-loading subscriptions are never written in place (DOM/copy-on-write). Added after seeding round 9: marshalers put text into a frame only through json.Marshal, so every frame is well-formed (PROV/json-text). Added after seeding round 10: CONTRA/stale-test (see C01) for the collector's sent-count bookkeeping. Added after seeding round 11: the unsubscribe event releases every direct subscription (DOM/revoke), so no later event targets a resource the client dropped. Added after seeding round 12: the already-handed-over quick exit of populateResources* is taken for exactly the states to-send and sent, by constant propagation over the seven states (TABLE/populate-skip); a release with the collect flag set reaches the collector on every path (DOM/gc-after-release). Added after the mutation sweep: the continuation of an add/change event that waited for referenced resources sends only under state != disposed, tested after the wait (DOM/ready-continuation-live); a map member created on demand is written only where it exists (DOM/map-made). Added after seeding round 13: the count-down in Unsend depends on the child being sent and counted only (DOM/unsend-countdown). DOM/queue-flag-whole: see C06. Added after the mutation sweep: the legacy twin of populateResources agrees with it on every abstract path — decisions and effects — apart from the encoding (TWIN/agree); the suite runs the legacy twin only a few times. Added after the mutation sweep: the sent-ness decisions of the collector (DOM/gc-unsend). PAIR/edge-sent-counted: see C08. Added after the mutation sweep: a container created on first use inside the loop that fills it is created only behind its own == nil test (DOM/lazy-init).",
 		Assumptions: baseAssumptions,
 		Rules: []Rule{
+			{Name: "DOM/lazy-init", Min: 1, Run: ruleLazyInit, Doc: "the list of references a change event introduces is created once and only grows: every new reference is waited for and delivered with the event"},
+			{Name: "PAIR/edge-sent-counted", Min: 2, Run: ruleEdgeSentCounted, Doc: "a new reference to an already sent resource is counted as sent before the event goes out"},
 			{Name: "DOM/gc-unsend", Min: 2, Run: ruleGCUnsend, Doc: "the collector un-sends a kept node exactly when the root was sent and no sent reference to the node remains; the mark phase starts only for a root that goes or is un-sent"},
 			{Name: "TWIN/agree", Min: 0, Run: ruleTwinAgree, Doc: "populateResources and its legacy twin take the same decisions and have the same effects on every path, apart from the encoding they place"},
 			{Name: "DOM/queue-flag-whole", Min: 5, Run: ruleQueueFlagWhole, Doc: "every decision on the hold-back reasons of a subscription (queueFlag) compares the whole set with zero"},
@@ -110,9 +112,11 @@ func init() {
 
 	register(&Property{
 		ID: "C03", Title: "Per-resource event delivery is ordered, gap-free and duplicate-free",
-		Explanation: "Decides: the five queues are updated only in order-preserving forms, including the re-queue of not-yet-processed events before newer ones (FIFO/queues); a worker is woken only on the empty→non-empty transition of a resource queue and never while locks are set (DOM/inch-send), so one worker at a time runs a queue; handleEvent stamps, applies and fans out inside one unlock window with no go statement (CONF/handle-event); Subscriber.Event only enqueues and the continuation of every handler runs on the connection worker (CTX/conn); an applied update advances cache and subscriber versions by exactly one and a stamped event is applied only at its version, hence at most once (PAIR/version-bump, DOM/version-filter); nothing is processed before the hand-over or while the gate is closed, with the in-loop re-test (DOM/event-gate); the bookkeeping of a callback slot (in-flight flag, cached verdict, the slot itself) is finished before the slot's continuations run, so a re-access started from inside a callback is not lost (DOM/drain-reentrancy). Not decided: the capacity countdown of the lock list, delivery by the socket, the 'equivalent derived sequence' exception (C12). Added after seeding round 7: the held-back events of a frame's resources are let through only after the frame that first hands the resources over (PAIR/rpc-resources). Added after seeding round 8: in the edit-script back-tracking, branches that compare the same two LCS-table cells cover every ordering, so the derived sequence is not cut short on a tie (TABLE/lcs-exhaustive; decides the present formulation of the algorithm only). Added after seeding round 9: a query event takes one event lock per query request and each is released once, so later events do not overtake pending answers (PAIR/query-lock). Added after seeding round 10: message handlers take messages in synchronously, in arrival order (FIFO/handler-sync); the loading gate of an already sent resource is not opened again (DOM/ref-shapes). Added after seeding round 11: TABLE/add-run (see C01). Added after the mutation sweep: every early return of unqueueEvents lies on the true edge of queueFlag != 0 (DOM/queue-flag-whole). DOM/lock-gate: see C13. Added after the mutation sweep: stateRequested is stored before the get request on every path (PAIR/requested-once). DOM/resetting-gate: see C12.",
+		Explanation: "Decides: the five queues are updated only in order-preserving forms, including the re-queue of not-yet-processed events before newer ones (FIFO/queues); a worker is woken only on the empty→non-empty transition of a resource queue and never while locks are set (DOM/inch-send), so one worker at a time runs a queue; handleEvent stamps, applies and fans out inside one unlock window with no go statement (CONF/handle-event); Subscriber.Event only enqueues and the continuation of every handler runs on the connection worker (CTX/conn); an applied update advances cache and subscriber versions by exactly one and a stamped event is applied only at its version, hence at most once (PAIR/version-bump, DOM/version-filter); nothing is processed before the hand-over or while the gate is closed, with the in-loop re-test (DOM/event-gate); the bookkeeping of a callback slot (in-flight flag, cached verdict, the slot itself) is finished before the slot's continuations run, so a re-access started from inside a callback is not lost (DOM/drain-reentrancy). Not decided: the capacity countdown of the lock list, delivery by the socket, the 'equivalent derived sequence' exception (C12). Added after seeding round 7: the held-back events of a frame's resources are let through only after the frame that first hands the resources over (PAIR/rpc-resources). Added after seeding round 8: in the edit-script back-tracking, branches that compare the same two LCS-table cells cover every ordering, so the derived sequence is not cut short on a tie (TABLE/lcs-exhaustive; decides the present formulation of the algorithm only). Added after seeding round 9: a query event takes one event lock per query request and each is released once, so later events do not overtake pending answers (PAIR/query-lock). Added after seeding round 10: message handlers take messages in synchronously, in arrival order (FIFO/handler-sync); the loading gate of an already sent resource is not opened again (DOM/ref-shapes). Added after seeding round 11: TABLE/add-run (see C01). Added after the mutation sweep: every early return of unqueueEvents lies on the true edge of queueFlag != 0 (DOM/queue-flag-whole). DOM/lock-gate: see C13. Added after the mutation sweep: stateRequested is stored before the get request on every path (PAIR/requested-once). DOM/resetting-gate: see C12. Added after the mutation sweep: every unqueueEvents(R) in a continuation is matched by a dominating queueEvents(R) where the continuation is created (PAIR/queue-reason). Added after the mutation sweep: no path of processCollectionEvent / processModelEvent (or of one of their continuations) sends the incoming event twice (PAIR/one-event-out).",
 		Assumptions: baseAssumptions,
 		Rules: []Rule{
+			{Name: "PAIR/one-event-out", Min: 2, Run: ruleOneEventOut, Doc: "a resource event is passed on to the client at most once on every path of the subscription's event handlers"},
+			{Name: "PAIR/queue-reason", Min: 2, Run: ruleQueueReason, Doc: "a continuation that lifts a hold-back reason was created behind the queueEvents that set it: later events do not overtake the event being prepared"},
 			{Name: "DOM/resetting-gate", Min: 5, Run: ruleResettingGate, Doc: "state events are not applied while a re-fetch is outstanding"},
 			{Name: "PAIR/requested-once", Min: 2, Run: ruleRequestedOnce, Doc: "the get request of a cache entry goes out only after the entry is marked requested: one request per load, one initialisation"},
 			{Name: "DOM/lock-gate", Min: 1, Run: ruleLockGate, Doc: "tasks queued behind a query event run only after all its answers"},
@@ -239,9 +243,10 @@ func init() {
 
 	register(&Property{
 		ID: "C08", Title: "Direct subscription accounting; failed requests leave nothing behind",
-		Explanation: "Decides: on every continuation path of every function that takes a direct subscription the count is released exactly once on every failure and on every outcome of get-type handlers, kept exactly on the success of subscribe-type handlers, and never released when Subscribe itself failed (PAIR/direct-count); an unsubscribe removes counts only behind the test direct >= count with the same count (DOM/unsub-precond); the count parameter is validated as positive (DOM/count-param); direct++ only below the limit (DOM/sub-limit); revocation and delete remove all direct subscriptions (DOM/revoke); direct is written by addCount/removeCount only; params that carry no count unsubscribe once: a decoded-params path reaches UnsubscribeResource with the default 1 (DOM/unsub-precond). Not decided: numeric equality of the counter with the response history (it is the sum of the per-path facts). Added after seeding round 7: a connection registers a Subscription object under a resource id only on the not-found edge of the lookup of that id (DOM/one-sub-per-rid); the collector's mark pass keeps every node that is held or reached from a kept node (DOM/gc-mark). Added after seeding round 9: a request answered with success before any failure keeps its direct subscription (PAIR/direct-count). Added after seeding round 11: the unsubscribe count is decoded as an integer and reaches the handler unconverted, so a fractional count cannot pass the 'no more than held' test by truncation (DOM/count-integer). Added after the mutation sweep: removeCount lowers counts only behind the any-holder test (DOM/remove-count-held); the direct count is lowered by the count asked for when that many are held — statically dead edges of the clamp do not count (DOM/unsub-precond).",
+		Explanation: "Decides: on every continuation path of every function that takes a direct subscription the count is released exactly once on every failure and on every outcome of get-type handlers, kept exactly on the success of subscribe-type handlers, and never released when Subscribe itself failed (PAIR/direct-count); an unsubscribe removes counts only behind the test direct >= count with the same count (DOM/unsub-precond); the count parameter is validated as positive (DOM/count-param); direct++ only below the limit (DOM/sub-limit); revocation and delete remove all direct subscriptions (DOM/revoke); direct is written by addCount/removeCount only; params that carry no count unsubscribe once: a decoded-params path reaches UnsubscribeResource with the default 1 (DOM/unsub-precond). Not decided: numeric equality of the counter with the response history (it is the sum of the per-path facts). Added after seeding round 7: a connection registers a Subscription object under a resource id only on the not-found edge of the lookup of that id (DOM/one-sub-per-rid); the collector's mark pass keeps every node that is held or reached from a kept node (DOM/gc-mark). Added after seeding round 9: a request answered with success before any failure keeps its direct subscription (PAIR/direct-count). Added after seeding round 11: the unsubscribe count is decoded as an integer and reaches the handler unconverted, so a fractional count cannot pass the 'no more than held' test by truncation (DOM/count-integer). Added after the mutation sweep: removeCount lowers counts only behind the any-holder test (DOM/remove-count-held); the direct count is lowered by the count asked for when that many are held — statically dead edges of the clamp do not count (DOM/unsub-precond). Added after the mutation sweep: the immediate send of an add/change event that references an already delivered resource is preceded by the count-up of that resource's indirectsent (PAIR/edge-sent-counted).",
 		Assumptions: append([]string{"LIN (C07): every handler replies exactly once", "a task refused by a disposing connection needs no release (dispose releases everything)"}, baseAssumptions...),
 		Rules: []Rule{
+			{Name: "PAIR/edge-sent-counted", Min: 2, Run: ruleEdgeSentCounted, Doc: "the quick exits of the add/change handlers count a new reference to an already sent resource in its indirectsent before the event goes out"},
 			{Name: "DOM/remove-count-held", Min: 3, Run: ruleRemoveCountHeld, Doc: "removeCount lowers a count only while the subscription has a holder (direct+indirect+indirectsent != 0)"},
 			{Name: "DOM/gc-after-release", Min: 1, Run: ruleGCAfterRelease, Doc: "a released reference reaches the collector on every path: nothing is left behind on a reference cycle"},
 			{Name: "DOM/count-integer", Min: 2, Run: ruleCountInteger, Doc: "the unsubscribe count is an integer as decoded: a fractional count is refused, not truncated"},
